@@ -3,6 +3,7 @@ Helper lemmas for C23: list bookkeeping of `active_uploads_`, and the scheduler 
 (`Inv`) preserved by every operation of `Model/Uploads.lean`.
 -/
 import EphVerif.Model.Uploads
+import EphVerif.Spec.Uploads
 namespace EphVerif.Uploads
 
 theorem isKey_iff (p c : String) (a : Act) : isKey p c a = true ↔ a.peer = p ∧ a.chunk = c := by
@@ -169,7 +170,10 @@ theorem inv_noteStart {cfg : Cfg} {s : State} (h : Inv cfg s) (p c : String) (no
       · have : ¬ p = q := fun e => hq e.symm
         simp only [hq, this, if_false] at e ⊢; omega
     · have h0 : matchCount p c s.active = 0 := by
-        have := (hasAct_iff s.active p c); omega
+        have hi := hasAct_iff s.active p c
+        by_cases z : 0 < matchCount p c s.active
+        · exact absurd (hi.2 z) hk
+        · omega
       have hk' : hasAct s.active p c = false := by simpa using hk
       simp only [hk', Bool.not_false, if_true, bump]
       by_cases hq : q = p
@@ -262,5 +266,177 @@ theorem inv_run {cfg : Cfg} (hist : List Step) : ∀ {s : State}, Inv cfg s → 
   induction hist with
   | nil => intro s h; exact h
   | cons e rest ih => intro s h; exact ih (inv_step h e)
+
+/-! ### Refinement: `active_uploads_` is the specification's ledger of running uploads -/
+
+def toX (a : Act) : C23Spec.Xfer := ⟨a.peer, a.chunk, a.started⟩
+def toLedger (l : List Act) : C23Spec.Ledger := l.map toX
+
+/-- the chunk frames of a step, in order -/
+def sentOf : List Frame → List (String × String)
+  | [] => []
+  | .chunk p c :: r => (p, c) :: sentOf r
+  | .nack _ _ :: r => sentOf r
+
+theorem sentOf_append (a b : List Frame) : sentOf (a ++ b) = sentOf a ++ sentOf b := by
+  induction a with
+  | nil => rfl
+  | cons f r ih => cases f <;> simp [sentOf, ih]
+
+theorem startAll_append (L : C23Spec.Ledger) (now : Int) (a b : List (String × String)) :
+    C23Spec.startAll L now (a ++ b) = C23Spec.startAll (C23Spec.startAll L now a) now b := by
+  induction a generalizing L with
+  | nil => rfl
+  | cons k r ih => obtain ⟨p, c⟩ := k; simp [C23Spec.startAll, ih]
+
+theorem toLedger_erase (l : List Act) (p c : String) :
+    toLedger (eraseAct l p c) = C23Spec.finish (toLedger l) p c := by
+  simp only [toLedger, eraseAct, C23Spec.finish, List.filter_map]
+  rfl
+
+theorem eraseAct_of_not_has {l : List Act} {p c : String} (h : hasAct l p c = false) : eraseAct l p c = l := by
+  simp only [hasAct, List.any_eq_false] at h
+  simp only [eraseAct, List.filter_eq_self]
+  intro a ha; simp [h a ha]
+
+theorem noteEnd_active (s : State) (p c : String) : (noteEnd s p c).active = eraseAct s.active p c := by
+  unfold noteEnd
+  by_cases hk : hasAct s.active p c = true
+  · simp [hk]
+  · have : hasAct s.active p c = false := by simpa using hk
+    simp [this, eraseAct_of_not_has this]
+
+theorem noteEnd_queue (s : State) (p c : String) : (noteEnd s p c).queue = s.queue := by
+  unfold noteEnd; split <;> rfl
+
+theorem toLedger_noteStart (s : State) (p c : String) (now : Int) :
+    toLedger (noteStart s p c now).active = C23Spec.start (toLedger s.active) p c now := by
+  show toLedger (eraseAct s.active p c ++ [⟨p, c, now⟩]) = _
+  simp only [toLedger, List.map_append, C23Spec.start]
+  rw [show List.map toX (eraseAct s.active p c) = toLedger (eraseAct s.active p c) from rfl, toLedger_erase]
+  rfl
+
+def keyIn (keys : List (String × String)) (a : Act) : Bool := keys.any fun k => a.peer == k.1 && a.chunk == k.2
+
+theorem endAll_active (keys : List (String × String)) :
+    ∀ s : State, (endAll s keys).active = s.active.filter (fun a => !keyIn keys a) := by
+  induction keys with
+  | nil =>
+    intro s
+    simp only [endAll, keyIn, List.any_nil, Bool.not_false]
+    exact (List.filter_eq_self.2 (fun _ _ => rfl)).symm
+  | cons k rest ih =>
+    intro s; obtain ⟨p, c⟩ := k
+    simp only [endAll, ih, noteEnd_active, eraseAct, List.filter_filter]
+    apply List.filter_congr
+    intro a _
+    simp [keyIn, isKey, Bool.and_comm]
+
+theorem endAll_queue (keys : List (String × String)) : ∀ s : State, (endAll s keys).queue = s.queue := by
+  induction keys with
+  | nil => intro s; rfl
+  | cons k rest ih => intro s; obtain ⟨p, c⟩ := k; simp [endAll, ih, noteEnd_queue]
+
+theorem uniq_eq {l : List Act} (hu : Uniq l) {a b : Act} (ha : a ∈ l) (hb : b ∈ l)
+    (hp : a.peer = b.peer) (hc : a.chunk = b.chunk) : a = b := by
+  have h1 := hu b.peer b.chunk
+  unfold matchCount at h1
+  have ma : a ∈ l.filter (isKey b.peer b.chunk) := List.mem_filter.2 ⟨ha, (isKey_iff _ _ _).2 ⟨hp, hc⟩⟩
+  have mb : b ∈ l.filter (isKey b.peer b.chunk) := List.mem_filter.2 ⟨hb, (isKey_iff _ _ _).2 ⟨rfl, rfl⟩⟩
+  match hl : l.filter (isKey b.peer b.chunk), h1, ma, mb with
+  | [], _, ma, _ => cases ma
+  | [x], _, ma, mb =>
+    simp only [List.mem_singleton] at ma mb
+    rw [ma, mb]
+  | _ :: _ :: _, h1, _, _ => simp at h1
+
+theorem prune_active {cfg : Cfg} {s : State} (hu : Uniq s.active) (now : Int) :
+    toLedger (prune cfg now s).active = C23Spec.expire cfg.timeout now (toLedger s.active) := by
+  unfold prune C23Spec.expire
+  by_cases ht : cfg.timeout ≤ 0
+  · simp [ht]
+  · simp only [ht, if_false, endAll_active, toLedger, List.filter_map]
+    congr 1
+    apply List.filter_congr
+    intro a ha
+    simp only [Function.comp, toX]
+    congr 1
+    -- some stale record has a's key  ↔  a is stale
+    show keyIn _ a = isStale cfg now a
+    cases hs : isStale cfg now a with
+    | true =>
+      simp only [keyIn, List.any_eq_true, List.mem_map, List.mem_filter]
+      exact ⟨(a.peer, a.chunk), ⟨a, ⟨ha, hs⟩, rfl⟩, by simp⟩
+    | false =>
+      simp only [keyIn, List.any_eq_false, List.mem_map, List.mem_filter]
+      intro k ⟨b, ⟨hb, hbs⟩, hk⟩
+      subst hk
+      intro hm
+      simp only [Bool.and_eq_true, beq_iff_eq] at hm
+      have := uniq_eq hu ha hb hm.1 hm.2
+      subst this
+      rw [hs] at hbs; cases hbs
+
+theorem prune_queue (cfg : Cfg) (now : Int) (s : State) : (prune cfg now s).queue = s.queue := by
+  unfold prune; split
+  · rfl
+  · exact endAll_queue _ _
+
+theorem dispatch_ledger (env : Env) (now : Int) (s : State) (r : Req) :
+    toLedger (dispatch env now s r).1.active
+      = C23Spec.startAll (toLedger s.active) now (sentOf (dispatch env now s r).2) := by
+  unfold dispatch nackFrames
+  split
+  · split <;> rfl
+  · split
+    · rfl
+    · split
+      · split <;> rfl
+      · simp only [Bool.false_eq_true, if_false, sentOf, C23Spec.startAll]
+        exact toLedger_noteStart s r.peer r.chunk now
+
+theorem loop_ledger (cfg : Cfg) (env : Env) (now : Int) (n : Nat) :
+    ∀ (s : State) (fr : List Frame), ∃ new, (loop cfg env now false n s fr).2 = fr ++ new ∧
+      toLedger (loop cfg env now false n s fr).1.active
+        = C23Spec.startAll (toLedger s.active) now (sentOf new) := by
+  induction n with
+  | zero => intro s fr; exact ⟨[], by simp [loop], rfl⟩
+  | succ n ih =>
+    intro s fr
+    unfold loop
+    split
+    · exact ⟨[], by simp, rfl⟩
+    · split
+      · exact ⟨[], by simp, rfl⟩
+      · rename_i r rest hq
+        dsimp only
+        split
+        · exact ih _ fr
+        · obtain ⟨new, h1, h2⟩ := ih (dispatch env now { s with queue := rest } r false).1
+            (fr ++ (dispatch env now { s with queue := rest } r false).2)
+          refine ⟨(dispatch env now { s with queue := rest } r false).2 ++ new, ?_, ?_⟩
+          · rw [h1, List.append_assoc]
+          · rw [h2, sentOf_append, startAll_append, dispatch_ledger]
+
+theorem rotate_active (cfg : Cfg) (now : Int) (s : State) : (rotate cfg now s).active = s.active := by
+  unfold rotate; split
+  · split <;> rfl
+  · rfl
+
+theorem process_ledger {cfg : Cfg} {s : State} (hu : Uniq s.active) (env : Env) (now : Int) :
+    toLedger (process cfg env now s).1.active
+      = C23Spec.startAll (C23Spec.expire cfg.timeout now (toLedger s.active)) now
+          (sentOf (process cfg env now s).2) := by
+  unfold process
+  simp only
+  split
+  · simp only [sentOf, C23Spec.startAll]; exact prune_active hu now
+  · obtain ⟨new, h1, h2⟩ := loop_ledger cfg env now (rotate cfg now (prune cfg now s)).queue.length
+      (rotate cfg now (prune cfg now s)) []
+    rw [h2, h1, List.nil_append, rotate_active, prune_active hu]
+
+theorem running_toLedger (l : List Act) (p : String) : C23Spec.running (toLedger l) p = countPeer p l := by
+  simp only [C23Spec.running, toLedger, countPeer, List.filter_map, List.length_map]
+  rfl
 
 end EphVerif.Uploads
